@@ -403,6 +403,68 @@ func init() {
 					}
 					c.Case(0, true, "item-vars")
 				}})
+			// encodings along producer histories: a message that was already encoded (once or twice) is
+			// re-addressed / re-filled / gets its wait bit set, and every message on the way is encoded again
+			hops := [][]string{{"sess", "sess"}, {"sess", "setw", "sess"}, {"fill", "sess", "setw", "sess"}, {"sess", "fill", "setw"}, {"setw", "sess", "fill", "sess"},
+				{"sess", "unset", "sess"}, {"fill", "setw", "sess", "sess", "sess"}}
+			sp = append(sp, h.Space{Name: "encode-derive-encode-histories", Count: uint64(len(hops) * 4),
+				Describe: func(i uint64) interface{} { return fmt.Sprintf("history %v with ToBytes() after every step (variant %d)", hops[i/4], i%4) },
+				Run: func(c *h.Ctx, i uint64) {
+					hist, variant := hops[i/4], int(i%4)
+					tmpl := ref.List(&ref.Node{Kind: ref.U2, Elems: []ref.Elem{{Var: "v0"}, {U: 7}}}, ref.Ascii("x"))
+					if variant%2 == 1 {
+						tmpl = ref.List(ref.Var("v0"), ref.List())
+					}
+					rm := &ref.Msg{Name: "m", Stream: 9, Function: 5, W: 2, Dir: "H->E", Session: -1, Item: tmpl}
+					msg := ast.NewDataMessage("m", 9, 5, 2, "H->E", Build(tmpl))
+					nsess := 0
+					check := func(step string) {
+						for rep := 0; rep < 2; rep++ { // encode twice: the second call must give the same bytes
+							got := msg.ToBytes()
+							want := []byte{}
+							if rm.W != 2 && rm.Session != -1 && rm.Item.Complete() {
+								want = ref.EncodeMsg(rm)
+							}
+							c.Ops(1)
+							if !bytes.Equal(got, want) {
+								c.Fail("history-bytes", fmt.Sprintf("history %v variant %d after %s", hist, variant, step), fmt.Sprintf("ToBytes()=%x want %x", got, want))
+								return
+							}
+						}
+					}
+					check("construction")
+					for _, op := range hist {
+						switch op {
+						case "sess":
+							nsess++
+							sid := 100*nsess + variant
+							sys := []byte{byte(nsess), 0xEE, byte(variant), 0x01}
+							if variant >= 2 {
+								sys = sys[:nsess%4]
+							}
+							msg = msg.SetSessionIDAndSystemBytes(sid, sys)
+							rm.Session = sid
+							rm.System = [4]byte{}
+							copy(rm.System[:], sys)
+						case "unset":
+							msg = msg.SetSessionIDAndSystemBytes(-1, nil)
+							rm.Session, rm.System = -1, [4]byte{}
+						case "setw":
+							msg = msg.SetWaitBit(variant%2 == 0)
+							rm.W = (variant + 1) % 2
+						case "fill":
+							var s []slot
+							slotsOf(rm.Item, &s)
+							if len(s) > 0 {
+								fv := valueOptions(s[0])[0]
+								msg = msg.FillVariables(map[string]interface{}{s[0].name: fv.v})
+								rm.Item = substitute(rm.Item, map[string]fillValue{s[0].name: fv})
+							}
+						}
+						check(op)
+					}
+					c.Case(0, true, "history")
+				}})
 			// size boundaries: every format at the 1/2/3-length-byte boundaries, top-level and nested
 			type sz struct {
 				k      ref.Kind
